@@ -429,6 +429,10 @@ def check_combos(seq, tier, ctx, only=None):
         ref_groups.append(rg)
     case0 = dict(part="B", seq=list(seq), tier=tier)
     ctx.transition()
+    # the constructor is an entry point of its own: the notes are handed over in time order for sequences of even sum,
+    # in reverse order otherwise (a note set has no order)
+    if sum(seq) % 2:
+        cols, offs, types = cols[::-1], offs[::-1], types[::-1]
     groups = Pattern(cols, offs, types).group(0, None, False)
     gobs = [sorted((int(r["column"]), float(r["offset"]), r["type"].__name__) for r in g) for g in groups]
     gexp = [sorted((c, o, t.__name__) for c, o, t in rg) for rg in ref_groups]
